@@ -296,7 +296,7 @@ theorem cx_closed {r1 r2 : Nat} {ind1 ind2 o1 o2 : List Prim} {tp tp' : Tape}
 
 omit refl trans in
 example : WellFormed exSub 1 [pAdd, pOne, pOne] ∧ WellFormed exSub 1 [pAdd, pTrue, pAdd, pOne, pOne] ∧
-    cxOnePoint [pAdd, pOne, pOne] [pAdd, pTrue, pAdd, pOne, pOne] [.pick 1 1, .choice 2 0, .choice 3 0] =
+    cxOnePoint [pAdd, pOne, pOne] [pAdd, pTrue, pAdd, pOne, pOne] [.choice 1 0, .choice 2 0, .choice 3 0] =
       .ok ([pAdd, pAdd, pOne, pOne, pOne], [pAdd, pTrue, pOne], []) :=
   ⟨(wellFormed_iff_typed.2 ex_ty3), (wellFormed_iff_typed.2 ex_ty5), by rfl⟩
 
@@ -335,7 +335,7 @@ omit refl trans in
 leaves `ind1[1]` and `ind2[4]` of the common type are exchanged -/
 example (x1 x2 termpb : Float) (h1 : decide (x1 < termpb) = true) (h2 : decide (x2 < termpb) = true) :
     cxOnePointLeafBiased [pAdd, pOne, pEph] [pAdd, pTrue, pAdd, pOne, pEph] termpb
-      [.rnd x1, .rnd x2, .pick 1 1, .choice 2 0, .choice 2 1] =
+      [.rnd x1, .rnd x2, .choice 1 0, .choice 2 0, .choice 2 1] =
     .ok ([pAdd, pEph, pEph], [pAdd, pTrue, pAdd, pOne, pOne], []) := by
   simp only [cxOnePointLeafBiased, popRnd, h1, h2]
   rfl
@@ -1077,8 +1077,8 @@ example (tp : Tape) : Benign (2 * 2 + 4) tp (mutInsert [pAdd, pOne, pOne] exPs t
 example (tp : Tape) : Benign 2 tp (mutShrink [pAdd, pAdd, pOne, pTrue, pOne] tp) :=
   shrink_total exSub_refl exSub_trans tp (r := 1) (wellFormed_iff_typed.2 (by decide))
 
-example : Benign 3 [.pick 1 1, .choice 2 0, .choice 3 0]
-    (cxOnePoint [pAdd, pOne, pOne] [pAdd, pTrue, pAdd, pOne, pOne] [.pick 1 1, .choice 2 0, .choice 3 0]) :=
+example : Benign 3 [.choice 1 0, .choice 2 0, .choice 3 0]
+    (cxOnePoint [pAdd, pOne, pOne] [pAdd, pTrue, pAdd, pOne, pOne] [.choice 1 0, .choice 2 0, .choice 3 0]) :=
   cx_total exSub_refl exSub_trans _ (wellFormed_iff_typed.2 ex_ty3) (wellFormed_iff_typed.2 ex_ty5)
 
 /-! ## The pools -/
